@@ -23,7 +23,7 @@ ASSUMPTIONS = ["electricity itself is not simulated: coverage and connectivity a
 
 
 def budget(tier):
-    return {"examples": 400 if tier == "quick" else 6000, "wall_s": 130 if tier == "quick" else 1700}
+    return {"examples": 400 if tier == "quick" else 6000, "wall_s": 130 if tier == "quick" else 900}
 
 
 @st.composite
